@@ -306,10 +306,16 @@ fn make_handler(sim: &Sim, name: &'static str, h: &MHandler, hlog: &Rc<RefCell<H
             }
         }
         if let Beh::Registrar = &beh {
+            // (at most four registrations per delivery, however often a defective dispatch
+            // invokes this handler)
             let tok = REG.with(|r| {
-                r.borrow_mut().as_mut().map(|(next, _)| {
-                    *next += 1;
-                    *next - 1
+                r.borrow_mut().as_mut().and_then(|(next, made)| {
+                    if made.len() >= 4 {
+                        None
+                    } else {
+                        *next += 1;
+                        Some(*next - 1)
+                    }
                 })
             });
             if let Some(new_token) = tok {
